@@ -1,7 +1,6 @@
 package c20
 
 import (
-	"fmt"
 	"sort"
 	"strings"
 	"testing"
@@ -279,5 +278,3 @@ func TestReplayDBRes(t *testing.T) {
 	r := kit.NewRec("C20", "DBRes", ruleDBRes, assumptionsDBRes...)
 	kit.Replay(t, r, runDBRes(r))
 }
-
-var _ = fmt.Sprintf
